@@ -69,7 +69,17 @@ def spec(case, mo, io):
         if not cm["dbc"]:
             continue
         sm = dict((m[0], m[1] if len(m) > 1 else []) for m in cm["members"])
+        declared = dict((o["k"], set(kk for kk, _m in o["ns"])) for o in ops if o["op"] == "class")
         for key, accs in ci["members"]:
+            # a plain (non-DBC) class that overrides a member one of its ancestors provides is created behind the
+            # library's back: its function never inherits - the chain through it is outside the claim
+            unprocessed_override = False
+            for pos, anc in enumerate(cm["mro"]):
+                if anc in last_m and not last_m[anc]["dbc"] and key in declared.get(anc, ()):
+                    if any(key in declared.get(a2, ()) for a2 in last_m[anc]["mro"][1:]):
+                        unprocessed_override = True
+            if unprocessed_override:
+                continue
             for a in accs:
                 sa = next((x for x in sm.get(key, []) if x["which"] == a["which"]), None)
                 if sa is None:
